@@ -18,10 +18,11 @@ import (
 )
 
 // Regressions of the two shrunk generated cases that led to
-//   b1b31cc fix: blobserver/handlers: enumerate-blobs with maxwaitsec lists the blobs that are present
-//     (history: client.Upload <empty blob>; client.EnumerateBlobsOpts{MaxWait: 1s} -> 0 blobs)
-//   1f3baf9 fix: client: StatBlobs reports each blob once and calls fn serially
-//     (history: client.Upload <blob>; client.StatBlobs(2 refs, 1 present) -> reported twice)
+//
+//	b1b31cc fix: blobserver/handlers: enumerate-blobs with maxwaitsec lists the blobs that are present
+//	  (history: client.Upload <empty blob>; client.EnumerateBlobsOpts{MaxWait: 1s} -> 0 blobs)
+//	1f3baf9 fix: client: StatBlobs reports each blob once and calls fn serially
+//	  (history: client.Upload <blob>; client.StatBlobs(2 refs, 1 present) -> reported twice)
 func TestRegressMaxWaitAndClientStat(t *testing.T) {
 	if evid.Replaying() {
 		t.Skip()
